@@ -8,7 +8,7 @@ from vlib import boot
 from vlib.engine import Outcome
 
 PROPERTY = 'C07'
-RULE = ('(split) streams holding an unknown message type code, which no reference can frame, are fed to fresh endpoints '
+RULE = ('(split) streams holding an unknown message type code, which no reference can frame, and streams in which the reply to the endpoint own SESS_TERM arrives together with further legal messages, are fed to fresh endpoints '
         'under four cut sets (handshake then all at once, header/handshake/rest, octet by octet, generated cuts): the '
         'acted-on sequence, the octets written and the closed state must be the same for all four.  '
         '(stream) A conforming peer stream (contact header, SESS_INIT with extension items, well-formed transfers with '
@@ -190,6 +190,12 @@ def split_cases(draw):
     unknown = st.integers(8, 255).map(lambda code: {'t': 'UNKNOWN-CODE', 'code': code})
     before = draw(st.lists(simple, max_size=2))
     after = draw(st.lists(st.one_of(simple, simple, unknown), min_size=1, max_size=4))
+    if draw(st.integers(0, 2)) == 0:
+        # the endpoint has asked for termination itself; the peer's answer arrives together with other legal messages
+        term = {'t': 'SESS_TERM', 'flags': 1, 'reason': 0}
+        msgs = draw(st.lists(simple, max_size=2)) + [term] + draw(st.lists(st.sampled_from([{'t': 'KEEPALIVE'}, {'t': 'MSG_REJECT', 'rej_msg_id': 4, 'reason': 1}]), min_size=1, max_size=2))
+        return {'kind': 'split', 'active': draw(st.booleans()), 'msgs': msgs, 'own_terminate': True,
+                'cuts': draw(st.lists(st.integers(1, 40), max_size=5))}
     return {'kind': 'split', 'active': draw(st.booleans()), 'msgs': before + [draw(unknown)] + after,
             'cuts': draw(st.lists(st.integers(1, 60), max_size=5))}
 
@@ -264,6 +270,8 @@ def enumerate_cases(tier):
 
 
 def pinned_cases():
+    yield 'own-terminate-reply-and-keepalive', {'kind': 'split', 'active': False, 'cuts': [3], 'own_terminate': True,
+                                                'msgs': [{'t': 'SESS_TERM', 'flags': 1, 'reason': 0}, {'t': 'KEEPALIVE'}]}
     yield 'unknown-type-then-keepalives', {'kind': 'split', 'active': False, 'cuts': [1],
                                            'msgs': [{'t': 'UNKNOWN-CODE', 'code': 0x99}, {'t': 'KEEPALIVE'}, {'t': 'KEEPALIVE'}]}
     yield 'keepalive-ends-read', {'kind': 'stream', 'active': False, 'sess_init': None, 'queue_own': False,
@@ -436,9 +444,11 @@ def run_codec(case, out):
                  % (_short(_norm(back)), _short(msg)))
 
 
-def acted_on(data, cuts, active):
-    ''' Feed ``data`` cut at ``cuts`` to a fresh endpoint.  :return: (acted-on sequence, octets written, closed?, escapes) '''
+def acted_on(data, cuts, active, terminate_at=None):
+    ''' Feed ``data`` cut at ``cuts`` to a fresh endpoint (which is told to terminate once ``terminate_at`` octets have
+    been delivered, if given).  :return: (acted-on sequence, octets written, closed?, escapes) '''
     from vlib import tcpcl_world as tw
+    import dbus
     world = tw.World(tw.make_config('dtn://real/'), scripted=True, real_is_passive=not active)
     end = world.real
     hdl = end.hdl
@@ -468,6 +478,11 @@ def acted_on(data, cuts, active):
         for _ in range(200):
             if end.sock.closed or not end.ctx.iterate():
                 break
+        if terminate_at is not None and pos == terminate_at and not end.sock.closed:
+            end.call('terminate', dbus.Byte(0))
+            for _ in range(200):
+                if end.sock.closed or not end.ctx.iterate():
+                    break
     world.settle()
     return log, bytes(world.real_wire()), end.sock.closed, [(e.exc_type, e.frame) for e in world.escapes()]
 
@@ -486,9 +501,17 @@ def run_split_independence(case, out):
     variants = [[len(head)], [6, len(head)], list(range(1, len(data))), [6, len(head)] + [c + len(head) for c in case.get('cuts', [])]]
     results = []
     for cuts in variants:
-        log, wire, closed, escapes = acted_on(data, cuts, active)
+        log, wire, closed, escapes = acted_on(data, cuts, active, len(head) if case.get('own_terminate') else None)
         for exc_type, frame in escapes:
             out.fail('escape:%s@%s' % (exc_type, frame), 'exception escaped the receive callback under cuts %s' % cuts[:8])
+        if case.get('own_terminate'):
+            # what arrives behind the peer's SESS_TERM reaches a session that is over: whether such a message is still
+            # looked at before the connection closes depends on how far the endpoint's own writing has got, which is
+            # not a matter of framing; the comparison covers everything up to the SESS_TERM, the octets written and
+            # whether the connection ends closed
+            idx = next((i for i, m in enumerate(log) if m.get('t') == 'SESS_TERM'), None)
+            if idx is not None:
+                log = log[:idx + 1]
         results.append((cuts, log, wire, closed))
     base = results[0]
     for cuts, log, wire, closed in results[1:]:
@@ -503,8 +526,8 @@ def run_split_independence(case, out):
             out.fail('split-dependent-answers', 'the same stream draws different answers depending on the cuts (%d vs %d octets written, '
                      'closed %s vs %s)' % (len(wire), len(base[2]), closed, base[3]))
             break
-    out.label('split-independence', 'active' if active else 'passive')
-    out.nontrivial = any(m['t'] == 'UNKNOWN-CODE' for m in case['msgs']) and len(case['msgs']) >= 2
+    out.label('split-independence', 'active' if active else 'passive', 'own-terminate' if case.get('own_terminate') else 'no-terminate')
+    out.nontrivial = len(case['msgs']) >= 2 and (case.get('own_terminate') or any(m['t'] == 'UNKNOWN-CODE' for m in case['msgs']))
 
 
 def execute(case):
